@@ -51,6 +51,7 @@ for f in "$HERE"/regressions/"$ID"-*.json; do
   [ -e "$f" ] || continue
   timeout 120 "$FAST" replay "$f"
   r=$?
+  if [ "$r" = 0 ] && [ "$NEED_CHECKED" = 1 ]; then timeout 120 "$CHECKED" replay "$f" >/dev/null; r=$?; [ "$r" = 1 ] && "$CHECKED" replay "$f"; fi
   if [ "$r" = 1 ]; then rc=1
   elif [ "$r" = 124 ]; then
     if [ "$ID" = C05 ]; then echo "VIOLATION property=C05 replay=$f"; echo "  detail: replayed call did not return within 120 s (hang)"; rc=1
